@@ -27,30 +27,7 @@ pub fn points_block<const K: usize>(out: &mut String, t: &AffTree<K>, pts: &[Arr
     }
 }
 
-/// the same tree as `g`, stored in an arena whose first root was a draft that a second `Tree::add_root` replaced
-/// (documented behaviour: the new node becomes the root, the former root stays in the arena, disconnected): the
-/// root does not live in slot 0 and every index differs from the usual layout
-fn rerooted<const K: usize>(rng: &mut Rng, g: &AffTree<K>) -> AffTree<K> {
-    use affinitree::pwl::node::AffContent;
-    use affinitree::tree::graph::Tree;
-    let mut tree: Tree<AffContent, K> = Tree::new();
-    let root_val = g.tree.tree_node(g.tree.get_root_idx()).unwrap().value.clone();
-    let draft_rows = 1 + rng.below(3);
-    tree.add_root(AffContent::new(rand_aff(rng, draft_rows, g.in_dim())));
-    let root = tree.add_root(root_val);
-    let mut stack = vec![(g.tree.get_root_idx(), root)];
-    while let Some((src, dst)) = stack.pop() {
-        let children = g.tree.tree_node(src).unwrap().children;
-        for (label, c) in children.iter().enumerate() {
-            if let Some(c) = c {
-                let v = g.tree.tree_node(*c).unwrap().value.clone();
-                let d = tree.add_child_node(dst, label, v).unwrap();
-                stack.push((*c, d));
-            }
-        }
-    }
-    AffTree::<K>::from_tree(tree, g.in_dim())
-}
+use crate::gen::rerooted;
 
 fn one<const K: usize>(rng: &mut Rng, thorough: bool) -> String {
     let n = 1 + rng.below(3);
@@ -60,14 +37,28 @@ fn one<const K: usize>(rng: &mut Rng, thorough: bool) -> String {
     let fp = TreeParams { in_dim: n, out_dim: m, max_depth: depth + rng.below(2), partial16: *rng.pick(&[0, 0, 3, 6]), holes: rng.chance(1, 2), palette: 0 };
     let gp = TreeParams { in_dim: m, out_dim: p, max_depth: depth, partial16: *rng.pick(&[0, 0, 3, 6]), holes: rng.chance(1, 3), palette: 0 };
     let f: AffTree<K> = rand_tree(rng, &fp);
-    let g: AffTree<K> = rand_tree(rng, &gp);
+    let mut g: AffTree<K> = rand_tree(rng, &gp);
+    // now and then every terminal of the right operand (the affine map of `apply_func`) is scaled by 2^-60 or 2^-70
+    // (exact: a power of two): all coefficients of the composed terminals are then far below `f64::EPSILON`, and they
+    // are the function — nothing may flush them to zero
+    let tiny: f64 = if rng.chance(1, 8) { (2.0f64).powi(*rng.pick(&[-60, -70])) } else { 1.0 };
+    if tiny != 1.0 {
+        let terms: Vec<usize> = g.tree.terminal_indices().collect();
+        for i in terms {
+            let v = g.tree.node_value_mut(i).unwrap();
+            v.aff.mat.mapv_inplace(|c| c * tiny);
+            v.aff.bias.mapv_inplace(|c| c * tiny);
+        }
+    }
     let mut out = String::new();
     if rng.chance(1, 5) {
         // apply_func(a)
-        let a = rand_aff(rng, p, m);
+        let mut a = rand_aff(rng, p, m);
+        a.mat.mapv_inplace(|c| c * tiny);
+        a.bias.mapv_inplace(|c| c * tiny);
         let mut h = f.clone();
         let res = catch_unwind(AssertUnwindSafe(|| h.apply_func(&a)));
-        out.push_str("C02 apply_func ");
+        out.push_str(if tiny != 1.0 { "C02 apply_func tiny " } else { "C02 apply_func " });
         enc::afftree(&mut out, &f);
         out.push(' ');
         enc::aff(&mut out, &a);
@@ -93,7 +84,7 @@ fn one<const K: usize>(rng: &mut Rng, thorough: bool) -> String {
     let gr_before = gr.as_ref().map(|t| { let mut s = String::new(); enc::afftree(&mut s, t); s });
     let g_used: &AffTree<K> = gr.as_ref().unwrap_or(&g);
     let res = catch_unwind(AssertUnwindSafe(|| if verbose { h.compose::<false, true>(g_used) } else { h.compose::<false, false>(g_used) }));
-    out.push_str("C02 compose ");
+    out.push_str(if tiny != 1.0 { "C02 compose tiny " } else { "C02 compose " });
     enc::afftree(&mut out, &f);
     out.push(' ');
     enc::afftree(&mut out, &g_before);
